@@ -75,12 +75,43 @@ def _pow(a, b):
     return a**b
 
 
+_AC = {"add", "mul", "and", "or", "xor"}
+
+
+def _flatten(name, t, out):
+    if isinstance(t, tuple) and t and t[0] == "op" and t[1] == name:
+        _flatten(name, t[2], out)
+        _flatten(name, t[3], out)
+    else:
+        out.append(t)
+
+
 def op(name, a, b):
     if is_const(a) and is_const(b):
         try:
             return C(_BIN[name](a[1], b[1]))
         except Exception:
             pass
+    if name in _AC and not (is_const(a) and isinstance(a[1], (bytes, str))) and not (is_const(b) and isinstance(b[1], (bytes, str))):
+        # canonical order for associative-commutative integer operators: flatten, fold constants, sort
+        items = []
+        _flatten(name, a, items)
+        _flatten(name, b, items)
+        consts = [x for x in items if is_const(x) and isinstance(x[1], int) and not isinstance(x[1], bool)]
+        rest = [x for x in items if not (is_const(x) and isinstance(x[1], int) and not isinstance(x[1], bool))]
+        if any(is_const(x) and isinstance(x[1], (bytes, str)) for x in rest):
+            return ("op", name, a, b)
+        if len(consts) > 1:
+            acc = consts[0][1]
+            for c in consts[1:]:
+                acc = _BIN[name](acc, c[1])
+            consts = [C(acc)]
+        rest.sort(key=repr)
+        items = rest + consts
+        t = items[0]
+        for x in items[1:]:
+            t = ("op", name, t, x)
+        return t
     return ("op", name, a, b)
 
 
@@ -350,8 +381,11 @@ class Valuation:
     def leaf(self, t):
         if t in self.assign:
             return self.assign[t]
-        if self.fields and t[0] == "f" and (t[1], t[2]) in self.fields:
-            return self.fields[(t[1], t[2])]
+        if self.fields and t[0] == "f":
+            if (t[1], t[2], t[5]) in self.fields:
+                return self.fields[(t[1], t[2], t[5])]
+            if (t[1], t[2]) in self.fields:
+                return self.fields[(t[1], t[2])]
         v = None
         if self.domain is not None:
             v = self.domain(t, random.Random(_h(self.seed, t)))
